@@ -8,7 +8,8 @@
    the parsing loop with attributes, hwloc_type_sscanf, the sanity checks, the
    default types, the memmove. *)
 From Coq Require Import NArith List.
-From HV Require Import Base.Bytes Gen.Tables Text.Synthetic Text.SyntheticProofs Text.SyntheticBack.
+From Coq Require Import Permutation.
+From HV Require Import Base.Bytes Gen.Tables Text.Synthetic Text.SyntheticProofs Text.SyntheticBack Text.SyntheticPerm.
 Import ListNotations.
 Local Open Scope N_scope.
 
@@ -48,6 +49,25 @@ Proof.
   destruct (parse Cur s) as [sy| |f]; auto. destruct H as [[_ H]|H]; [discriminate|exact H].
 Qed.
 Print Assumptions synth_parse_safe_full.
+
+(* Faithful build, index part: for every accepted description every index array that is used (levels and
+   attached NUMA nodes; explicit lists, x*y and type-based interleavings) has exactly one entry per object and
+   NO DUPLICATE, and an accepted interleaving is a permutation of 0..total-1.  (Code as committed: explicit
+   duplicates rejected since 20f58c3, non-permutation interleavings since 659c0de.)  This is the hypothesis
+   inj_on of C01's synthetic_requests_are_laminar. *)
+Theorem synth_index_arrays_injective : forall s sy, parse Cur s = Ret sy ->
+  Forall iarr_ok (sy_levels sy) /\
+  match sy_niarr sy with None => True | Some a => N.of_nat (length a) = sy_nnr sy /\ NoDup a end.
+Proof. intros s sy. exact (parse_index_arrays_injective eq_refl eq_refl Cur s sy). Qed.
+Print Assumptions synth_index_arrays_injective.
+Theorem synth_interleaving_is_permutation : forall s lv attr len total a,
+  interleave Cur s lv attr len total = Ret a -> Permutation a (map N.of_nat (seq 0 (N.to_nat total))).
+Proof. intros s lv attr len total a. exact (interleave_is_permutation Cur s lv attr len total a eq_refl). Qed.
+(* the reported description: its interleaving 0,1,5,3,1,2 is no longer used (default indexes instead) *)
+Example synth_non_permutation_ignored :
+  exists sy, parse Cur (desc w_nonperm) = Ret sy /\
+             forallb (fun l => match lv_iarr l with None => true | Some _ => false end) (sy_levels sy) = true.
+Proof. apply nonperm_ignored. Qed.
 
 (* the boundary is reached: 126 levels below Machine without NUMA are accepted with all
    128 entries used; 125 levels too *)
